@@ -647,7 +647,9 @@ func (e *Engine) mk(vd *VD, addr atree.Address, limit uint32, depth int) (atree.
 		e.Stats.label("bulk_built_array")
 		return a, n, nil
 	case "map", "cmap":
-		if vd.K == "map" && e.excludeF4() {
+		// (a composite map whose field names collide under the colliding hash-input provider is not stored in the shared
+		// compact form: it carries its own extra data like a plain map and counts as one)
+		if (vd.K == "map" || (vd.K == "cmap" && e.Cfg.HipGroups > 0)) && e.excludeF4() {
 			// known finding F4 (DESIGN.md 6): >255 inlined containers with distinct extra data in one
 			// slab make the slab unencodable.  Excluded by construction: an array takes the map's place.
 			c := *vd
